@@ -125,6 +125,7 @@ fn run_c04(t: &mut Tape, _tier: Tier) -> RunOut {
     mix.logical_kinds = vec!["sig-digit", "cred-region"];
     mix.max_logical = 1;
     mix.logical_p10 = 1;
+    mix.prov_pending = 0;
     let mut j = |cx: &DeliveryCtx, out: &mut RunOut| judge_c04(cx, out);
     run_world(t, &mix, &mut j)
 }
@@ -143,6 +144,7 @@ fn run_c05(t: &mut Tape, _tier: Tier) -> RunOut {
     mix.max_nodes = 2;
     mix.misdeliver_one_in = 6;
     mix.noise = 3;
+    mix.baseline = true;
     let mut j = |cx: &DeliveryCtx, out: &mut RunOut| judge_c05(cx, out);
     run_world(t, &mix, &mut j)
 }
@@ -159,6 +161,16 @@ fn run_c11(t: &mut Tape, _tier: Tier) -> RunOut {
     mix.req.max_pairs = 2;
     mix.req.max_segs = 2;
     mix.node.requirements = t.chance(3);
+    // only headers are re-spelled and edited here; path and query travel in canonical spelling and
+    // the untouched original is delivered as a baseline, so a disagreement is the header handling's
+    mix.mask = crate::world::NoiseMask {
+        path: false,
+        query: false,
+        headers: true,
+    };
+    mix.baseline = true;
+    mix.prov_pending = 0;
+    mix.sign.date_noise = 0;
     let mut j = |cx: &DeliveryCtx, out: &mut RunOut| {
         tamper_probes(cx, out);
         judge_agreement(cx, out, "C11", "signed-headers-bound-unsigned-without-influence");
@@ -180,27 +192,16 @@ fn run_c12(t: &mut Tape, _tier: Tier) -> RunOut {
     mix.req.max_pairs = 5;
     mix.req.max_segs = 2;
     mix.req.max_headers = 2;
+    mix.mask = crate::world::NoiseMask {
+        path: false,
+        query: true,
+        headers: false,
+    };
+    mix.baseline = true;
+    mix.prov_pending = 0;
+    mix.sign.date_noise = 0;
     let mut j = |cx: &DeliveryCtx, out: &mut RunOut| judge_c12(cx, out);
     crate::deliver::run_form_world(t, &mix, &mut j)
-}
-
-// ---------------------------------------------------------------------------------------------
-// C13
-// ---------------------------------------------------------------------------------------------
-fn run_c13(t: &mut Tape, _tier: Tier) -> RunOut {
-    let mut mix = Mix::base();
-    mix.defect_kinds = faults::DEFECT_KINDS.to_vec();
-    mix.max_defects = 4;
-    mix.defect_p10 = 8;
-    mix.logical_kinds = vec!["sig-digit", "cred-region", "cred-service", "cred-date", "cred-term", "cred-access-key", "sig-length"];
-    mix.max_logical = 2;
-    mix.logical_p10 = 4;
-    mix.outside_window = true;
-    mix.prov_error_one_in = 5;
-    mix.noise = 2;
-    mix.req.big_body_one_in = 0;
-    let mut j = |cx: &DeliveryCtx, out: &mut RunOut| judge_c13(cx, out);
-    run_world(t, &mix, &mut j)
 }
 
 // ---------------------------------------------------------------------------------------------
@@ -339,19 +340,6 @@ pub fn registry() -> Vec<Profile> {
             rule: "form world: node folding option × where each parameter travels (URL/body/both, same name in both) × content-type spelling/charset × body tampering × delivery of the same wire request to a node with the other option value; non-trivial when the body is a form or a fault fired",
             quick_secs: 20,
             thorough_secs: 240,
-            real: REAL_COMMON,
-            stubs: STUBS_COMMON,
-            assumptions: ASSUME_COMMON,
-            sweep: None,
-        },
-        Profile {
-            id: "C13",
-            title: "precedence and taxonomy",
-            run: run_c13,
-            required: &["multi_defect[2]", "multi_defect[3]", "rule_reported[r01-path]", "rule_reported[r04-query]", "rule_reported[r05-both-carriers]", "rule_reported[r06a-algorithm]", "rule_reported[r06b-key-value]", "rule_reported[r06d-missing]", "rule_reported[r07d-missing]", "rule_reported[r08-requirement]", "rule_reported[r09-date-format]", "rule_reported[r10-expired]", "rule_reported[r11-not-yet-valid]", "rule_reported[r12-arity]", "rule_reported[r13-scope]", "rule_reported[r15-signature]"],
-            rule: "one delivery receives 1-4 defects from different rules and seams (network: bad path/query escape, carrier missing/both, algorithm, key=value, missing parameters, requirement, date text; clock: expired/not yet valid; scope: arity/region/service/terminator/date; provider errors; signature) on either carrier; non-trivial when at least one defect fired; distinct by shape hash (defect kinds, verdict, outcome)",
-            quick_secs: 25,
-            thorough_secs: 300,
             real: REAL_COMMON,
             stubs: STUBS_COMMON,
             assumptions: ASSUME_COMMON,
